@@ -115,6 +115,9 @@ type Stats struct {
 	Panics     map[string]int `json:"panics"`
 	Hangs      int            `json:"hangs"`
 	Nontrivial int            `json:"distinct_nontrivial"`
+	// Hashes of the distinct non-trivial cases (omitted when there are too many): check.py unions them across the
+	// generator shards so that a case produced by two shards is counted once.
+	Hashes     []uint64       `json:"nontrivial_hashes,omitempty"`
 	MaxCaseLen int            `json:"max_case_len"`
 	caseTags   int
 	seen       map[uint64]bool
@@ -145,6 +148,11 @@ func (s *Stats) endCase(ops []string) {
 		if !s.seen[k] {
 			s.seen[k] = true
 			s.Nontrivial++
+			if s.Nontrivial <= 400000 {
+				s.Hashes = append(s.Hashes, k)
+			} else {
+				s.Hashes = nil
+			}
 		}
 	}
 	s.caseTags = 0
